@@ -44,6 +44,8 @@ type sub struct {
 	QuickN  int    // runs per worker, quick tier
 	ThorN   int    // runs per worker, thorough tier
 	Workers int    // 0 = all
+	// QuickEnv / ThorEnv are extra environment settings for the workers.
+	QuickEnv, ThorEnv []string
 }
 
 type propSpec struct {
@@ -53,6 +55,10 @@ type propSpec struct {
 var specs = map[string]propSpec{
 	"C08": {Subs: []sub{{ID: "C08", QuickN: 60000, ThorN: 1500000}}},
 	"C09": {Subs: []sub{{ID: "C09", Race: true, QuickN: 20000, ThorN: 400000}}},
+	"C19": {Subs: []sub{
+		{ID: "C19/A", QuickN: 250000, ThorN: 4000000},
+		{ID: "C19/B", QuickN: 12, ThorN: 30, QuickEnv: []string{"VERIF_C19B_COUNTERS=20000"}, ThorEnv: []string{"VERIF_C19B_COUNTERS=200000"}},
+	}},
 }
 
 type statsFile struct {
@@ -275,6 +281,10 @@ func prepare(race, plain bool) {
 // runWorker runs the worker binary pinned to a core with the race detector
 // configured to report every occurrence.
 func runWorker(race bool, cpu int, outDir string, args ...string) (string, error) {
+	return runWorkerEnv(race, cpu, outDir, nil, args...)
+}
+
+func runWorkerEnv(race bool, cpu int, outDir string, extra []string, args ...string) (string, error) {
 	os.MkdirAll(outDir, 0o755)
 	racelog := filepath.Join(outDir, "race")
 	e := append(os.Environ(),
@@ -283,6 +293,7 @@ func runWorker(race bool, cpu int, outDir string, args ...string) (string, error
 		"VERIF_RACELOG="+racelog,
 		"VERIF_SHRINKTIME="+env("VERIF_SHRINKTIME", shrinkTime),
 		"VERIF_KNOWN="+strings.Join(knownIDs, ","))
+	e = append(e, extra...)
 	full := append([]string{"-c", strconv.Itoa(cpu % runtime.NumCPU()), workerPath(race)}, args...)
 	return run(outDir, e, "taskset", full...)
 }
@@ -466,9 +477,9 @@ func runCheck(id string, spec propSpec, tier string, seed uint64) int {
 		per = 1
 	}
 	for _, s := range spec.Subs {
-		n := s.QuickN
+		n, xenv := s.QuickN, s.QuickEnv
 		if tier == "thorough" {
-			n = s.ThorN
+			n, xenv = s.ThorN, s.ThorEnv
 		}
 		n = int(float64(n) * scale)
 		if n < 1 {
@@ -478,10 +489,10 @@ func runCheck(id string, spec propSpec, tier string, seed uint64) int {
 			wr := &workerResult{sub: s, idx: i, dir: filepath.Join(scratch, strings.ReplaceAll(s.ID, "/", "_")+"-w"+strconv.Itoa(i))}
 			results = append(results, wr)
 			wg.Add(1)
-			go func(wr *workerResult, cpu, n int) {
+			go func(wr *workerResult, cpu, n int, xenv []string) {
 				defer wg.Done()
 				wseed := seed*64 + uint64(wr.idx) + 1
-				out, err := runWorker(wr.sub.Race, cpu, wr.dir, "-prop", wr.sub.ID, "-runs", strconv.Itoa(n), "-seed", strconv.FormatUint(wseed, 10), "-out", wr.dir)
+				out, err := runWorkerEnv(wr.sub.Race, cpu, wr.dir, xenv, "-prop", wr.sub.ID, "-runs", strconv.Itoa(n), "-seed", strconv.FormatUint(wseed, 10), "-out", wr.dir)
 				mu.Lock()
 				defer mu.Unlock()
 				wr.out = out
@@ -497,7 +508,7 @@ func runCheck(id string, spec propSpec, tier string, seed uint64) int {
 						wr.stats = &sf
 					}
 				}
-			}(wr, cpu, n)
+			}(wr, cpu, n, xenv)
 			cpu++
 		}
 	}
